@@ -31,7 +31,8 @@ ASSUMPTIONS = [
     "MODEL/ENDMDL records are only placed where the model structure is "
     "unambiguous (MODEL n before a model's first atom, ENDMDL after its "
     "last); extra coordinate records are only inserted next to coordinate "
-    "records of a model",
+    "records of a model and never inside another residue (records of one "
+    "residue are contiguous)",
     "chain identifiers the program documents it re-letters (blank ids) are "
     "compared modulo that re-lettering",
 ]
@@ -101,6 +102,8 @@ def base_lines(base, flags, shift=0.0, serial0=1):
         rec, name, resn, ch, seq, x, y, z, ri = r
         if "blankchain" in flags:
             ch = ""
+            if base == "B" and ri == 3:
+                seq += 1  # waters of unnamed chains carry distinct numbers
         if "samechain" in flags:
             ch = "A"
             if base == "B" and ri in (1, 3):
@@ -171,11 +174,18 @@ def is_coord(line):
 
 
 def _near_coord(lines, gap):
+    """A new hetero residue may be inserted next to coordinate records of a
+    model, but not inside another residue (the records of one residue are
+    contiguous in a PDB file)."""
     def ok(l):
         return l[0:6].strip() in ("ATOM", "HETATM", "TER")
-    before = gap - 1 >= 0 and ok(lines[gap - 1])
-    after = gap < len(lines) and ok(lines[gap])
-    return before or after
+    before = lines[gap - 1] if gap - 1 >= 0 else ""
+    after = lines[gap] if gap < len(lines) else ""
+    if not (ok(before) or ok(after)):
+        return False
+    if is_coord(before) and is_coord(after):
+        return (before[21], before[22:27]) != (after[21], after[22:27])
+    return True
 
 
 def single_edits(lines):
@@ -290,7 +300,10 @@ def apply_program(lines, program):
     gaps = {}
     for kind, what, pos in program:
         if kind == "ins":
-            gaps.setdefault(pos, []).append(INSERTS[what])
+            text = INSERTS[what]
+            if what == "hetnew":  # a distinct residue per insertion point
+                text = text[:22] + f"{900 + pos:>4}" + text[26:]
+            gaps.setdefault(pos, []).append(text)
     out = []
     for i in range(len(lines) + 1):
         for extra in gaps.get(i, ()):
